@@ -33,6 +33,7 @@ func splice(s []int, i, del int, ins []int) []int {
 }
 
 func main() {
+	ev.GuardFor("C12")
 	r := ev.Start("C12")
 	e := &enum.E{R: r}
 	maxLen := ev.Pick(r, 6, 9)
